@@ -306,7 +306,9 @@ func (f *Frame) applyContract(c *cursor, site ssa.Instruction, callee *ssa.Funct
 	for _, en := range append(append([]*Clause{}, spec.Ensures...), spec.Assumes...) {
 		t, err := env2.evalBool(en.Expr)
 		if err != nil {
-			e.fail("ensures of %s: %v", key, err)
+			// a clause over the callee's own locals or sites (a decision table) says
+			// nothing a caller can use; it is checked where the callee is verified,
+			// and a clause that resolves nowhere is a spec error there
 			continue
 		}
 		ens = append(ens, t)
@@ -749,17 +751,31 @@ func (f *Frame) implicitNonNil(callee *ssa.Function, t types.Type) bool {
 // block of its receiver type ("(*T).*").
 func (P *Program) specFor(fn *ssa.Function) *FuncSpec {
 	key := funcKey(fn)
-	if sp := P.Specs.Funcs[key]; sp != nil {
-		return sp
-	}
+	sp := P.Specs.Funcs[key]
 	if fn.Signature.Recv() != nil && fn.Pkg != nil {
 		rk := fn.Pkg.Pkg.Name() + ".(" + strings.TrimPrefix(typeName(fn.Signature.Recv().Type()), fn.Pkg.Pkg.Name()+".") + ").*"
 		rk = strings.Replace(rk, "(*"+fn.Pkg.Pkg.Name()+".", "(*", 1)
-		if sp := P.Specs.Funcs[rk]; sp != nil {
-			return sp
+		if sp == nil {
+			sp = P.Specs.Funcs[rk]
+		}
+		if ev := P.Specs.Every[rk]; ev != nil {
+			if sp == nil {
+				sp = &FuncSpec{Key: key, File: ev.File, Line: ev.Line, Props: ev.Props}
+				P.Specs.Funcs[key] = sp
+			}
+			if P.Specs.everyMerged == nil {
+				P.Specs.everyMerged = map[*FuncSpec]bool{}
+			}
+			if !P.Specs.everyMerged[sp] {
+				P.Specs.everyMerged[sp] = true
+				sp.Requires = append(sp.Requires, ev.Requires...)
+				sp.Ensures = append(sp.Ensures, ev.Ensures...)
+				sp.Assumes = append(sp.Assumes, ev.Assumes...)
+				sp.Frames = append(sp.Frames, ev.Frames...)
+			}
 		}
 	}
-	return nil
+	return sp
 }
 
 // dynEffects: effects of calling a func value; when no func of that
